@@ -11,7 +11,7 @@ matrix size `n`, every capacity `cap` (the validity predicate demands
 `stop ≤ cap` for a row request of length `stop`, which is the C++
 `SIZE_CHECK(size <= m_maxSize)`; "minimum admissible capacity").
 -/
-import SharkVerif.Lemmas.CachedMatrix
+import SharkVerif.Lemmas.CachedMatrixG
 import SharkVerif.Model.KernelMatrices
 namespace SharkVerif.C09
 open SharkVerif.Cache
@@ -88,7 +88,7 @@ theorem apply_maxSize (m : CM V) (op : Op) : (apply m op).cache.maxSize = m.cach
 theorem apply_inv {m : CM V} (h : CMInv m) {op : Op} (hv : op.valid m.n m.cache.maxSize) :
     CMInv (apply m op) := by
   cases op with
-  | row k stop => exact cmInv_row h 0 hv.1 hv.2.1 hv.2.2.1 hv.2.2.2
+  | row k stop => exact cmInv_row h 0 hv.1 (Or.inl hv.2.1) hv.2.2.1 hv.2.2.2
   | flip i j => exact cmInv_flip h hv.1 hv.2
   | maxidx n' => exact cmInv_setMaxCachedIndex h n'
   | clear => exact cmInv_clear h
@@ -132,7 +132,7 @@ theorem returned_row_true (n cap : Nat) (base : Nat → Nat → V) (ops : List O
   intro m
   obtain ⟨hinv, hn, hcap⟩ := reachable_inv n cap base ops hv
   have hinv' : CMInv (m.row k 0 stop) :=
-    cmInv_row hinv 0 (by rw [hn]; exact hr.1) hr.2.1 (by rw [hn]; exact hr.2.2.1) (by rw [hcap]; exact hr.2.2.2)
+    cmInv_row hinv 0 (by rw [hn]; exact hr.1) (Or.inl hr.2.1) (by rw [hn]; exact hr.2.2.1) (by rw [hcap]; exact hr.2.2.2)
   constructor
   · show stop ≤ ((m.row k 0 stop).cache.lines k).length
     rw [row_line_self]
@@ -419,5 +419,607 @@ theorem partly_entry_true (be : Nat → Nat → V) (n bytes sz i j : Nat) :
 
 /-- non-vacuity: a concrete flip history moves entries as stated -/
 example : (flips Kernel.flip (Kernel.init fun a b => a * 10 + b) [(0, 2), (1, 2)]).entry 1 2 = 1 := by decide
+
+end SharkVerif.C09.Wrappers
+
+
+/-! ## End-to-end refinement: `CachedMatrix<Matrix>` (statement-level model) ⊑ `(i,j) ↦ base(π i, π j)`
+
+`CMG` (`Model/Cache.lean`) is the model the correspondence check runs against the real
+`CachedMatrix<Matrix>`: junk-filled fresh buffers that `base->row` overwrites, explicit bounds checks
+on every buffer access (`none` = access outside a buffer), the intrusive-list `swapLineIndices` of the
+C++ case by case, buffer identities.  The guards are exactly the `SIZE_CHECK`s of the C++. -/
+namespace SharkVerif.C09.G
+open SharkVerif.Cache
+
+variable {W V : Type}
+
+inductive GOp where
+  | row (k stop : Nat)            -- row(k,0,stop)
+  | rows (k start stop : Nat)     -- row(k,start,stop,storage)
+  | entry (i j : Nat)
+  | flip (i j : Nat)
+  | maxidx (n' : Nat)
+  | clear
+  deriving Repr, DecidableEq
+
+inductive Obs (V : Type) where
+  | line (l : List V)
+  | val (v : V)
+  | unit
+
+/-- the guards of the C++, evaluated in the current state: index ranges, `SIZE_CHECK(size <= m_maxSize)`
+(`ensureFreeMemory`), `SIZE_CHECK(size > 0)` (`cacheCreateRow`: only reached for a line that is not
+cached), `SIZE_CHECK(start <= end)`, `SIZE_CHECK(end <= size())`, `SIZE_CHECK(n <= size())` -/
+def GOp.valid (g : CMG W V) : GOp → Prop
+  | .row k stop => k < g.n ∧ stop ≤ g.n ∧ stop ≤ g.cache.core.maxSize ∧
+      (0 < stop ∨ g.cache.core.isCached k = true)
+  | .rows k start stop => k < g.n ∧ start ≤ stop ∧ stop ≤ g.n
+  | .entry i j => i < g.n ∧ j < g.n
+  | .flip i j => i < g.n ∧ j < g.n
+  | .maxidx n' => n' ≤ g.n
+  | .clear => True
+
+/-- one client call; `none` = some access left its buffer -/
+def step (ops : BaseOps W V) (junk : Nat → V) (g : CMG W V) : GOp → Option (CMG W V × Obs V)
+  | .row k stop => (CMG.row ops junk g k 0 stop).map fun g' => (g', .line ((g'.cache.core.lines k).take stop))
+  | .rows k s e => (CMG.rowStorage ops junk g k s e).map fun l => (g, .line l)
+  | .entry i j => some (g, .val (ops.entry g.w i j))
+  | .flip i j => (CMG.flip ops g i j).map fun g' => (g', .unit)
+  | .maxidx n' => some (g.setMaxCachedIndex n', .unit)
+  | .clear => some (g.clear, .unit)
+
+def run (ops : BaseOps W V) (junk : Nat → V) : CMG W V → List GOp → Option (CMG W V × List (Obs V))
+  | g, [] => some (g, [])
+  | g, op :: rest =>
+    match step ops junk g op with
+    | none => none
+    | some (g', o) =>
+      match run ops junk g' rest with
+      | none => none
+      | some (g'', os) => some (g'', o :: os)
+
+/-- every call of the history meets its guard in the state it is issued in -/
+def ValidHist (ops : BaseOps W V) (junk : Nat → V) : CMG W V → List GOp → Prop
+  | _, [] => True
+  | g, op :: rest => op.valid g ∧ ∀ g' o, step ops junk g op = some (g', o) → ValidHist ops junk g' rest
+
+/-- the abstract specification: only the variable order `π` is state -/
+def specStep (base : Nat → Nat → V) (π : Nat → Nat) : GOp → (Nat → Nat) × Obs V
+  | .row k stop => (π, .line ((List.range stop).map fun c => base (π k) (π c)))
+  | .rows k s e => (π, .line ((List.range (e - s)).map fun t => base (π k) (π (s + t))))
+  | .entry i j => (π, .val (base (π i) (π j)))
+  | .flip i j => (fun k => π (swapIdx i j k), .unit)
+  | .maxidx _ => (π, .unit)
+  | .clear => (π, .unit)
+
+def specRun (base : Nat → Nat → V) : (Nat → Nat) → List GOp → (Nat → Nat) × List (Obs V)
+  | π, [] => (π, [])
+  | π, op :: rest =>
+    let (π', o) := specStep base π op
+    let (π'', os) := specRun base π' rest
+    (π'', o :: os)
+
+/-- size/capacity accounting and truth of everything the cache holds -/
+structure Accounting (g : CMG W V) (n cap : Nat) (base : Nat → Nat → V) (π : Nat → Nat) : Prop where
+  n_eq    : g.n = n
+  cap_eq  : g.cache.core.maxSize = cap
+  size_eq : g.cache.core.size = total g.cache.core.lines g.cache.core.lru
+  nodup   : g.cache.core.lru.Nodup
+  mem     : ∀ i, i ∈ g.cache.core.lru ↔ g.cache.core.lines i ≠ []
+  bound   : g.cache.core.size ≤ cap
+  short   : ∀ k, (g.cache.core.lines k).length ≤ n
+  inside  : ∀ k, n ≤ k → g.cache.core.lines k = []
+  truth   : ∀ k c v, (g.cache.core.lines k)[c]? = some v → v = base (π k) (π c)
+
+/-- the coupling used in the induction -/
+structure Coupled (ops : BaseOps W V) (g : CMG W V) (m : CM V) (base : Nat → Nat → V) (π : Nat → Nat) : Prop where
+  sim  : Sim ops g m
+  inv  : CMInv m
+  base : m.base = base
+  perm : ∀ k, m.perm k = π k
+
+theorem Coupled.entry {ops : BaseOps W V} {g : CMG W V} {m : CM V} {base : Nat → Nat → V} {π : Nat → Nat}
+    (h : Coupled ops g m base π) (a b : Nat) : m.entry a b = base (π a) (π b) := by
+  simp only [CM.entry, h.base, h.perm]
+
+theorem Coupled.accounting {ops : BaseOps W V} {g : CMG W V} {m : CM V} {base : Nat → Nat → V}
+    {π : Nat → Nat} (h : Coupled ops g m base π) : Accounting g m.n m.cache.maxSize base π := by
+  have hc := h.sim.cache
+  refine ⟨h.sim.n, by rw [hc], by rw [hc]; exact h.inv.lru.acc, by rw [hc]; exact h.inv.lru.nodup,
+    by rw [hc]; exact h.inv.lru.mem, by rw [hc]; exact h.inv.lru.cap, by rw [hc]; exact h.inv.short,
+    by rw [hc]; exact h.inv.inside, ?_⟩
+  intro k c v hv
+  rw [hc] at hv
+  rw [← h.entry]; exact h.inv.truth k c v hv
+
+theorem flip_perm (m : CM V) (i j k : Nat) : (m.flip i j).perm k = m.perm (swapIdx i j k) := by
+  rcases Nat.lt_trichotomy i j with h | h | h
+  · rw [flip_ordered m h]
+  · subst h
+    have : m.flip i i = m := by unfold CM.flip; simp
+    rw [this]; congr 1; unfold swapIdx; split <;> simp_all
+  · rw [flip_swap m h, flip_ordered m h, swapIdx_comm]
+
+/-- one call: no buffer is left, the observation is the specified one, the coupling is kept -/
+theorem step_refines {ops : BaseOps W V} (hl : Lawful ops) (junk : Nat → V) {g : CMG W V} {m : CM V}
+    {base : Nat → Nat → V} {π : Nat → Nat} (h : Coupled ops g m base π) {op : GOp} (hv : op.valid g) :
+    ∃ g' m', step ops junk g op = some (g', (specStep base π op).2) ∧
+      Coupled ops g' m' base (specStep base π op).1 ∧ m'.n = m.n ∧ m'.cache.maxSize = m.cache.maxSize := by
+  have hn := h.sim.n
+  have hc := h.sim.cache
+  cases op with
+  | row k stop =>
+    obtain ⟨hk, hs, hcap, hpos⟩ := hv
+    rw [hn] at hk hs; rw [hc] at hcap hpos
+    obtain ⟨g', hrow, hsim, _, _, _⟩ := row_sim hl junk h.sim k 0 stop
+    have hinv' := cmInv_row h.inv 0 hk hpos hs hcap
+    refine ⟨g', m.row k 0 stop, ?_, ⟨hsim, hinv', h.base, h.perm⟩, rfl, getCacheLine_maxSize _ _ _ _⟩
+    simp only [step, hrow, Option.map_some, specStep]
+    congr 3
+    rw [hsim.cache]
+    have hlen : stop ≤ ((m.row k 0 stop).cache.lines k).length := by
+      rw [row_line_self]
+      split
+      · rename_i hh; exact hh.2
+      · rw [resized_length]; exact Nat.le_refl _
+    have := trueLine_segment (hinv'.truth k) 0 stop hlen
+    simp only [List.drop_zero, Nat.sub_zero, Nat.zero_add] at this
+    rw [this]
+    apply List.map_congr_left
+    intro c _
+    rw [row_entry]; exact h.entry k c
+  | rows k s e =>
+    obtain ⟨_, hse, _⟩ := hv
+    refine ⟨g, m, ?_, h, rfl, rfl⟩
+    simp only [step, rowStorage_sim hl junk h.sim h.inv k s e hse, Option.map_some, specStep]
+    congr 3
+    apply List.map_congr_left
+    intro t _; exact h.entry _ _
+  | entry i j =>
+    refine ⟨g, m, ?_, h, rfl, rfl⟩
+    simp only [step, specStep, h.sim.entry, h.entry]
+  | flip i j =>
+    obtain ⟨hi, hj⟩ := hv
+    rw [hn] at hi hj
+    obtain ⟨g', hflip, hsim, _⟩ := flip_sim hl h.sim h.inv i j
+    refine ⟨g', m.flip i j, ?_, ⟨hsim, cmInv_flip h.inv hi hj, by rw [flip_base]; exact h.base, ?_⟩,
+      flip_n m i j, flip_maxSize m i j⟩
+    · simp only [step, hflip, Option.map_some, specStep]
+    · intro k; rw [flip_perm]; exact h.perm _
+  | maxidx n' =>
+    refine ⟨g.setMaxCachedIndex n', m.setMaxCachedIndex n', rfl,
+      ⟨setMaxCachedIndex_sim h.sim n', cmInv_setMaxCachedIndex h.inv n', h.base, h.perm⟩, rfl, ?_⟩
+    simp [CM.setMaxCachedIndex, markFold_maxSize]
+  | clear =>
+    refine ⟨g.clear, m.clear, rfl, ⟨clear_sim h.sim, cmInv_clear h.inv, h.base, h.perm⟩, rfl, ?_⟩
+    simp [CM.clear, LRU.clear, ensureFree_maxSize]
+
+theorem run_refines {ops : BaseOps W V} (hl : Lawful ops) (junk : Nat → V) (base : Nat → Nat → V)
+    (hist : List GOp) : ∀ (g : CMG W V) (m : CM V) (π : Nat → Nat), Coupled ops g m base π →
+    ValidHist ops junk g hist →
+    ∃ g' m', run ops junk g hist = some (g', (specRun base π hist).2) ∧
+      Coupled ops g' m' base (specRun base π hist).1 ∧ m'.n = m.n ∧ m'.cache.maxSize = m.cache.maxSize := by
+  induction hist with
+  | nil => intro g m π h _; exact ⟨g, m, rfl, h, rfl, rfl⟩
+  | cons op rest ih =>
+    intro g m π h hv
+    obtain ⟨g1, m1, hstep, hc1, hn1, hcap1⟩ := step_refines hl junk h hv.1
+    obtain ⟨g2, m2, hrun, hc2, hn2, hcap2⟩ := ih g1 m1 _ hc1 (hv.2 g1 _ hstep)
+    refine ⟨g2, m2, ?_, hc2, by rw [hn2, hn1], by rw [hcap2, hcap1]⟩
+    simp only [run, hstep, hrun, specRun]
+
+/-- **C09, end to end.**  For every base-matrix class whose `row` writes its entries and whose
+`flipColumnsAndRows` exchanges two variables (`Lawful`), every matrix size `n`, every capacity `cap`,
+every junk content of freshly allocated buffers and every finite history of calls that meet the
+guards of the C++ in the state they are issued in:
+* no call reads or writes outside a cache line or the caller's storage (`run … = some …`),
+* the sequence of observations (returned row prefixes, filled storages, entries) is exactly that of
+  the specification `(i,j) ↦ entry₀(π i, π j)` for the current variable order `π`,
+* in the state reached (hence in every reachable state) the size counter equals the total length of
+  the lines held, the LRU list holds exactly the cached lines once each, the capacity is respected,
+  no line is longer than the matrix, and every value held is the true entry under `π`. -/
+theorem cachedMatrix_refines_spec {ops : BaseOps W V} (hl : Lawful ops) (junk : Nat → V)
+    (n cap : Nat) (w0 : W) (hist : List GOp)
+    (hv : ValidHist ops junk (CMG.init n w0 cap) hist) :
+    ∃ g, run ops junk (CMG.init n w0 cap) hist = some (g, (specRun (ops.entry w0) id hist).2) ∧
+      Accounting g n cap (ops.entry w0) (specRun (ops.entry w0) id hist).1 := by
+  have h0 : Coupled ops (CMG.init n w0 cap) (CM.init n (ops.entry w0) cap) (ops.entry w0) id :=
+    ⟨init_sim ops n w0 cap, cmInv_init _ _ _, rfl, fun _ => rfl⟩
+  obtain ⟨g, m, hrun, hc, hn, hcap⟩ := run_refines hl junk (ops.entry w0) hist _ _ _ h0 hv
+  refine ⟨g, hrun, ?_⟩
+  have := hc.accounting
+  rw [hn, hcap] at this
+  exact this
+
+instance (g : CMG W V) (op : GOp) : Decidable (op.valid g) := by
+  cases op <;> (simp only [GOp.valid]; infer_instance)
+
+/-- executable form of `ValidHist` (used for the non-vacuity examples) -/
+def checkHist (ops : BaseOps W V) (junk : Nat → V) : CMG W V → List GOp → Bool
+  | _, [] => true
+  | g, op :: rest =>
+    decide (op.valid g) &&
+      match step ops junk g op with
+      | some (g', _) => checkHist ops junk g' rest
+      | none => true
+
+theorem validHist_of_check (ops : BaseOps W V) (junk : Nat → V) (hist : List GOp) :
+    ∀ g : CMG W V, checkHist ops junk g hist = true → ValidHist ops junk g hist := by
+  induction hist with
+  | nil => intro _ _; trivial
+  | cons op rest ih =>
+    intro g h
+    simp only [checkHist, Bool.and_eq_true, decide_eq_true_eq] at h
+    refine ⟨h.1, ?_⟩
+    intro g' o hstep
+    have h2 := h.2
+    rw [hstep] at h2
+    exact ih g' h2
+
+/-- the guards cannot be dropped — capacity: a request longer than the capacity makes
+`ensureFreeMemory` run out of lines to evict (C++: `m_lruList.back()` of an empty list) while memory is
+still missing; the model stops with the request unsatisfied -/
+theorem request_beyond_capacity_is_stuck {s : LRU V} (h : Inv s) {need : Nat} (hn : s.maxSize < need) :
+    (s.ensureFree need).lru = [] ∧ (s.ensureFree need).maxSize - (s.ensureFree need).size < need := by
+  have key : ∀ (f : Nat) (s : LRU V), Inv s → s.lru.length ≤ f → s.maxSize < need →
+      (LRU.ensureFreeGo need f s).lru = [] := by
+    intro f
+    induction f with
+    | zero => intro s _ hf _; exact List.eq_nil_of_length_eq_zero (Nat.le_zero.1 hf)
+    | succ f ih =>
+      intro s hs hf hn
+      unfold LRU.ensureFreeGo
+      have : s.maxSize - s.size < need := by omega
+      simp only [this, ↓reduceIte]
+      split
+      · rename_i hnone; exact List.getLast?_eq_none_iff.1 hnone
+      · rename_i o hsome
+        have ho : o ∈ s.lru := List.mem_of_getLast? hsome
+        apply ih _ (inv_removeRow hs o)
+        · show (s.lru.erase o).length ≤ f
+          rw [List.length_erase_of_mem ho]; omega
+        · exact hn
+  have h1 := key s.lru.length s h (Nat.le_refl _) hn
+  refine ⟨h1, ?_⟩
+  rw [ensureFree_maxSize]; omega
+
+/-! ### buffer identities: the rows of an SMO step stay the same buffers -/
+
+theorem getCacheLine_lru_protects {s : LRU V} (h : Inv s) {p rest : List Nat} {c size : Nat}
+    (f : Nat → V) (hl : s.lru = p ++ rest) (hc : c ∉ p) (hfit : total s.lines p + size ≤ s.maxSize) :
+    (∀ k ∈ p, (s.getCacheLine c size f).lines k = s.lines k) ∧
+    ∃ rest', (s.getCacheLine c size f).lru = c :: (p ++ rest') := by
+  have hne : ∀ k ∈ p, k ≠ c := fun k hk e => hc (e ▸ hk)
+  unfold LRU.getCacheLine
+  split
+  · simp only [LRU.createRow, List.length_map, List.length_range]
+    obtain ⟨h1, r', h2⟩ := ensureFreeGo_protects (V := V) size s.lru.length s p rest h hl hfit
+    refine ⟨?_, r', ?_⟩
+    · intro k hk; rw [upd_ne _ _ (hne k hk)]; exact h1 k hk
+    · show c :: (LRU.ensureFree s size).lru = _
+      rw [LRU.ensureFree, h2]
+  · split
+    · refine ⟨fun _ _ => rfl, rest.erase c, ?_⟩
+      show c :: s.lru.erase c = _
+      rw [hl, List.erase_append_right _ hc]
+    · simp only [LRU.resizeLine]
+      have hl' : (s.removeRow c).lru = p ++ rest.erase c := by
+        show s.lru.erase c = _
+        rw [hl, List.erase_append_right _ hc]
+      have hlines : ∀ k ∈ p, (s.removeRow c).lines k = s.lines k :=
+        fun k hk => upd_ne _ _ (hne k hk)
+      have htot : total (s.removeRow c).lines p = total s.lines p := total_congr hlines
+      obtain ⟨h1, r', h2⟩ := ensureFreeGo_protects (V := V) size (s.removeRow c).lru.length
+        (s.removeRow c) p (rest.erase c) (inv_removeRow h c) hl' (by rw [htot]; exact hfit)
+      refine ⟨?_, r', ?_⟩
+      · intro k hk; rw [upd_ne _ _ (hne k hk)]
+        show (LRU.ensureFree (s.removeRow c) size).lines k = _
+        rw [LRU.ensureFree, h1 k hk, hlines k hk]
+      · show c :: (LRU.ensureFree (s.removeRow c) size).lru = _
+        rw [LRU.ensureFree, h2]
+
+theorem LRUP.getCacheLine_ids_other (s : LRUP V) {i k : Nat} (size : Nat) (f : Nat → V) (hk : k ≠ i) :
+    (s.getCacheLine i size f).ids k = s.ids k := by
+  unfold LRUP.getCacheLine; split
+  · rfl
+  · exact upd_ne _ _ hk
+
+/-- **a row request keeps the most recently used rows that still fit**: same contents, same buffer
+(the pointer returned earlier stays valid), and they stay in front of the LRU list behind the new row -/
+theorem row_keeps_recent {ops : BaseOps W V} (hl : Lawful ops) (junk : Nat → V) {g : CMG W V} {m : CM V}
+    (hs : Sim ops g m) (hinv : CMInv m) {p rest : List Nat} {c stop : Nat}
+    (hlru : g.cache.core.lru = p ++ rest) (hc : c ∉ p)
+    (hfit : total g.cache.core.lines p + stop ≤ g.cache.core.maxSize)
+    {g' : CMG W V} (hrow : CMG.row ops junk g c 0 stop = some g') :
+    (∀ k ∈ p, g'.cache.core.lines k = g.cache.core.lines k ∧ g'.cache.bufferOf k = g.cache.bufferOf k) ∧
+    (∃ rest', g'.cache.core.lru = c :: (p ++ rest')) ∧ Sim ops g' (m.row c 0 stop) := by
+  obtain ⟨g2, hrow2, hsim, _, hids, _⟩ := row_sim hl junk hs c 0 stop
+  rw [hrow] at hrow2
+  cases hrow2
+  rw [hs.cache] at hlru hfit
+  obtain ⟨h1, h2⟩ := getCacheLine_lru_protects hinv.lru (fun c_1 => m.entry c c_1) hlru hc hfit
+  have hcore : g'.cache.core = m.cache.getCacheLine c stop (fun c_1 => m.entry c c_1) := hsim.cache
+  refine ⟨?_, by rw [hcore]; exact h2, hsim⟩
+  intro k hk
+  have hlines : g'.cache.core.lines k = g.cache.core.lines k := by rw [hcore, hs.cache]; exact h1 k hk
+  refine ⟨hlines, ?_⟩
+  have hkc : k ≠ c := fun e => hc (e ▸ hk)
+  simp only [LRUP.bufferOf, LRU.isCached, hlines, hids, LRUP.getCacheLine_ids_other _ _ _ hkc]
+  try rfl
+
+/-- **C09 (the two most recent rows stay valid while a third is fetched, if capacity allows)** for the
+access pattern of an SMO step: rows `i`, `j`, then a third row `c`.  If row `i` and the request for `j`
+fit together, and rows `i`, `j` and the request for `c` fit together, then the buffer returned for row
+`i` is the same buffer with the same contents after both later requests, and likewise the buffer of
+row `j` after the third — so both pointers may be used while row `c` is being fetched. -/
+theorem smo_three_rows_valid {ops : BaseOps W V} (hl : Lawful ops) (junk : Nat → V) {g0 : CMG W V} {m0 : CM V}
+    (hs : Sim ops g0 m0) (hinv : CMInv m0) {i j c si sj sc : Nat} (hij : i ≠ j) (hci : c ≠ i) (hcj : c ≠ j)
+    (hvi : (GOp.row i si).valid g0) {g1 g2 g3 : CMG W V}
+    (h1 : CMG.row ops junk g0 i 0 si = some g1)
+    (hvj : (GOp.row j sj).valid g1) (h2 : CMG.row ops junk g1 j 0 sj = some g2)
+    (h3 : CMG.row ops junk g2 c 0 sc = some g3)
+    (hfit2 : (g1.cache.core.lines i).length + sj ≤ g1.cache.core.maxSize)
+    (hfit3 : (g2.cache.core.lines i).length + (g2.cache.core.lines j).length + sc ≤ g2.cache.core.maxSize) :
+    g2.cache.core.lines i = g1.cache.core.lines i ∧ g3.cache.core.lines i = g1.cache.core.lines i ∧
+    g2.cache.bufferOf i = g1.cache.bufferOf i ∧ g3.cache.bufferOf i = g1.cache.bufferOf i ∧
+    g3.cache.core.lines j = g2.cache.core.lines j ∧ g3.cache.bufferOf j = g2.cache.bufferOf j := by
+  -- after the first request row i is the newest
+  obtain ⟨hki, hsi, hcapi, hposi⟩ := hvi
+  rw [hs.n] at hki hsi; rw [hs.cache] at hcapi hposi
+  have hinv1 := cmInv_row hinv 0 hki hposi hsi hcapi
+  obtain ⟨_, ⟨r1, hl1⟩, hs1⟩ := row_keeps_recent hl junk hs hinv (p := []) (rest := g0.cache.core.lru)
+    (c := i) (stop := si) rfl (by simp) (by simp [total]; rw [hs.cache]; exact hcapi) h1
+  -- the second request keeps it
+  obtain ⟨hkj, hsj, hcapj, hposj⟩ := hvj
+  rw [hs1.n] at hkj hsj; rw [hs1.cache] at hcapj hposj
+  have hinv2 := cmInv_row hinv1 0 hkj hposj hsj hcapj
+  obtain ⟨hk2, ⟨r2, hl2⟩, hs2⟩ := row_keeps_recent hl junk hs1 hinv1 (p := [i]) (rest := r1)
+    (c := j) (stop := sj) (by simpa using hl1) (by simp [Ne.symm hij]) (by simpa [total] using hfit2) h2
+  -- the third keeps both
+  obtain ⟨hk3, _, _⟩ := row_keeps_recent hl junk hs2 hinv2 (p := [j, i]) (rest := r2)
+    (c := c) (stop := sc) (by simpa using hl2) (by simp [hci, hcj])
+    (by simp only [total, List.map_cons, List.map_nil, List.sum_cons, List.sum_nil]; omega) h3
+  have a2 := hk2 i (by simp)
+  have a3i := hk3 i (by simp)
+  have a3j := hk3 j (by simp)
+  exact ⟨a2.1, by rw [a3i.1, a2.1], a2.2, by rw [a3i.2, a2.2], a3j.1, a3j.2⟩
+
+end SharkVerif.C09.G
+
+/-! ## The wrapper classes as base matrices of a `CachedMatrix`
+
+Each wrapper gives a `BaseOps` instance (its `entry`, ranged `row`, `flipColumnsAndRows`); `Lawful` is the
+obligation that the ranged `row` — a separate code path in `RegularizedKernelMatrix`,
+`ModifiedKernelMatrix`, `GaussianKernelMatrix` — writes exactly the entries for EVERY range
+(`start > 0`, `end = k`, `end = k+1`, `start = end`, whole row are all instances) and that a flip exchanges
+the two variables.  `cachedMatrix_refines_spec` then applies to the cache over the wrapper. -/
+namespace SharkVerif.C09.Wrappers
+open SharkVerif.Cache (swapIdx BaseOps Lawful swapIdx_inj)
+open SharkVerif.KM
+
+variable {V : Type}
+
+/-- for a lawful base matrix: `row(k,start,end,storage)` after any flip history writes the initial
+entries at the permuted indices, for every range -/
+theorem lawful_row_true {W : Type} {ops : BaseOps W V} (hl : Lawful ops) (fs : List (Nat × Nat)) (w : W)
+    (k s e : Nat) :
+    ops.row (flips ops.flip w fs) k s e =
+      (List.range (e - s)).map fun d => ops.entry w (permOf fs k) (permOf fs (s + d)) := by
+  rw [hl.row_eq]
+  apply List.map_congr_left
+  intro d _
+  exact entry_flips ops.entry ops.flip hl.flip_entry fs w k (s + d)
+
+def kernelOps : BaseOps (Kernel V) V := ⟨Kernel.entry, Kernel.row, Kernel.flip⟩
+theorem kernel_lawful : Lawful (kernelOps (V := V)) := ⟨fun _ _ _ _ => rfl, fun _ _ _ _ _ => rfl⟩
+
+def regularizedOps [Add V] : BaseOps (Regularized V) V := ⟨Regularized.entry, Regularized.row, Regularized.flip⟩
+theorem regularized_lawful [Add V] : Lawful (regularizedOps (V := V)) := by
+  refine ⟨fun m k s e => regularized_row_eq_entries m k s e, ?_⟩
+  intro m i j a b
+  show (m.flip i j).entry a b = m.entry (swapIdx i j a) (swapIdx i j b)
+  simp only [Regularized.entry, Regularized.flip, Kernel.entry, Kernel.flip, swapVec]
+  by_cases hab : a = b
+  · subst hab; simp
+  · have : swapIdx i j a ≠ swapIdx i j b := fun e => hab (swapIdx_inj i j e)
+    simp [hab, this]
+
+def modifiedOps [Mul V] : BaseOps (Modified V) V := ⟨Modified.entry, Modified.row, Modified.flip⟩
+/-- `ModifiedKernelMatrix::row` multiplies from the right (`storage[j] *= modifier`), `entry` from the
+left (`modifier*ret`): they agree for a commutative multiplication (`float`, `double`) -/
+theorem modified_lawful [Mul V] (hcomm : ∀ a b : V, a * b = b * a) : Lawful (modifiedOps (V := V)) := by
+  refine ⟨?_, fun _ _ _ _ _ => rfl⟩
+  intro m k s e
+  show m.row k s e = _
+  simp only [Modified.row, modifiedOps, Modified.entry]
+  apply List.map_congr_left
+  intro d _; exact hcomm _ _
+
+def precomputedOps : BaseOps (Precomputed V) V := ⟨Precomputed.entry, Precomputed.row, Precomputed.flip⟩
+theorem precomputed_lawful : Lawful (precomputedOps (V := V)) := ⟨fun _ _ _ _ => rfl, fun _ _ _ _ _ => rfl⟩
+
+def block2Ops : BaseOps (Block2 V) V := ⟨Block2.entry, Block2.row, Block2.flip⟩
+theorem block2_lawful : Lawful (block2Ops (V := V)) := ⟨fun _ _ _ _ => rfl, fun _ _ _ _ _ => rfl⟩
+
+def differenceOps [Add V] [Sub V] : BaseOps (Difference V) V := ⟨Difference.entry, Difference.row, Difference.flip⟩
+theorem difference_lawful [Add V] [Sub V] : Lawful (differenceOps (V := V)) :=
+  ⟨fun _ _ _ _ => rfl, fun _ _ _ _ _ => rfl⟩
+
+section gaussian
+variable [Add V] [Sub V] [Mul V] [OfNat V 2]
+def gaussianOps : BaseOps (Gaussian V) V := ⟨Gaussian.entry, Gaussian.row, Gaussian.flip⟩
+theorem gaussian_lawful : Lawful (gaussianOps (V := V)) := ⟨fun _ _ _ _ => rfl, fun _ _ _ _ _ => rfl⟩
+
+/-- `GaussianKernelMatrix`: after any flips `entry a b = post(⟨x,x⟩ − 2⟨x,y⟩ + ⟨y,y⟩)` for the points
+`x`, `y` originally at `π a`, `π b` — the precomputed norms follow the flips -/
+theorem gaussian_entry_true (ip : Nat → Nat → V) (post : V → V) (fs : List (Nat × Nat)) (a b : Nat) :
+    (flips Gaussian.flip (Gaussian.init ip post) fs).entry a b =
+      post (ip (permOf fs a) (permOf fs a) - 2 * ip (permOf fs a) (permOf fs b) + ip (permOf fs b) (permOf fs b)) := by
+  rw [entry_flips Gaussian.entry Gaussian.flip (fun _ _ _ _ _ => rfl)]
+  rfl
+
+/-- its `matrix()` is assembled from rows and therefore honours flips -/
+theorem gaussian_matrix_true (ip : Nat → Nat → V) (post : V → V) (fs : List (Nat × Nat)) (n i : Nat) :
+    (flips Gaussian.flip (Gaussian.init ip post) fs).matrix n i =
+      (List.range n).map fun j => (flips Gaussian.flip (Gaussian.init ip post) fs).entry i j := by
+  simp [Gaussian.matrix, Gaussian.row, Gaussian.entry]
+end gaussian
+
+section exmod
+variable [Mul V]
+def exmodOps (swapsScale : Bool) : BaseOps (ExMod V) V := ⟨ExMod.entry, ExMod.row, ExMod.flip swapsScale⟩
+
+/-- with the scaling coefficients exchanged by `flipColumnsAndRows` the class is a lawful base matrix … -/
+theorem exmod_lawful : Lawful (exmodOps (V := V) true) := ⟨fun _ _ _ _ => rfl, fun _ _ _ _ _ => rfl⟩
+
+/-- … and `entry a b = K(x,y)·(1/s_x)·(1/s_y)` for the examples originally at `π a`, `π b` -/
+theorem exmod_entry_true (k : Nat → Nat → V) (sc : Nat → V) (fs : List (Nat × Nat)) (a b : Nat) :
+    (flips (ExMod.flip true) (ExMod.init k sc) fs).entry a b =
+      k (permOf fs a) (permOf fs b) * sc (permOf fs a) * sc (permOf fs b) := by
+  rw [entry_flips ExMod.entry (ExMod.flip true) (fun _ _ _ _ _ => rfl)]
+  rfl
+
+omit [Mul V] in
+theorem exmod_asCoded_after_flips : ∀ (fs : List (Nat × Nat)) (m : ExMod V) (a : Nat),
+    (flips (ExMod.flip false) m fs).x a = m.x (permOf fs a) ∧ (flips (ExMod.flip false) m fs).scale = m.scale ∧
+    (flips (ExMod.flip false) m fs).k = m.k := by
+  intro fs
+  induction fs with
+  | nil => intro m a; exact ⟨rfl, rfl, rfl⟩
+  | cons p fs ih =>
+    intro m a
+    obtain ⟨i, j⟩ := p
+    have := ih (ExMod.flip false m i j) a
+    exact ⟨this.1, this.2.1, this.2.2⟩
+
+/-- finding F-C09-1, as a theorem about the code as written (scaling coefficients NOT exchanged): the
+kernel value is that of the flipped examples but the coefficients are those of the positions -/
+theorem exmod_entry_asCoded (k : Nat → Nat → V) (sc : Nat → V) (fs : List (Nat × Nat)) (a b : Nat) :
+    (flips (ExMod.flip false) (ExMod.init k sc) fs).entry a b =
+      k (permOf fs a) (permOf fs b) * sc a * sc b := by
+  have h := exmod_asCoded_after_flips fs (ExMod.init k sc)
+  simp only [ExMod.entry]
+  rw [(h a).1, (h b).1, (h a).2.1, (h a).2.2]
+  rfl
+end exmod
+
+/-- F-C09-1 witness: two examples with coefficients 1 and 2, one flip; the code as written is not a
+lawful base matrix -/
+theorem exmod_asCoded_differs :
+    (flips (ExMod.flip false) (ExMod.init (fun a b => (a + 1) * (b + 1)) (fun i => i + 1)) [(0, 1)]).entry 0 0 = 4 ∧
+    (flips (ExMod.flip true) (ExMod.init (fun a b => (a + 1) * (b + 1)) (fun i => i + 1)) [(0, 1)]).entry 0 0 = 16 := by
+  decide
+
+/-! ### `matrix()` -/
+
+/-- `KernelMatrix::matrix` as written (`false`) is the Gram matrix in the ORIGINAL order whatever flips
+were applied (finding K2); evaluated under the current order (`true`, the proposed repair) it is `entry` -/
+theorem kernel_matrix_asCoded (k : Nat → Nat → V) (fs : List (Nat × Nat)) (a b : Nat) :
+    (flips Kernel.flip (Kernel.init k) fs).matrix false a b = k a b ∧
+    (flips Kernel.flip (Kernel.init k) fs).matrix true a b = (flips Kernel.flip (Kernel.init k) fs).entry a b := by
+  have hk : ∀ (fs : List (Nat × Nat)) (m : Kernel V), (flips Kernel.flip m fs).k = m.k := by
+    intro fs
+    induction fs with
+    | nil => intro m; rfl
+    | cons p fs ih => intro m; exact ih _
+  exact ⟨by simp only [Kernel.matrix]; rw [hk]; rfl, rfl⟩
+
+/-- before the first flip `matrix()` and `entry` agree (all library callers precompute then) -/
+theorem kernel_matrix_true_unflipped (k : Nat → Nat → V) (hf : Bool) (a b : Nat) :
+    (Kernel.init k).matrix hf a b = (Kernel.init k).entry a b := by
+  cases hf <;> rfl
+
+/-- K2 witness: after one flip `matrix()` as written differs from `entry` -/
+theorem kernel_matrix_asCoded_differs :
+    (flips Kernel.flip (Kernel.init fun a b => a * 10 + b) [(0, 2)]).matrix false 0 0 = 0 ∧
+    (flips Kernel.flip (Kernel.init fun a b => a * 10 + b) [(0, 2)]).entry 0 0 = 22 := by decide
+
+/-- with the repaired `KernelMatrix::matrix`, `RegularizedKernelMatrix::matrix` and
+`ModifiedKernelMatrix::matrix` (which apply the CURRENT diagonal / labels on top) equal `entry` -/
+theorem regularized_matrix_true [Add V] (m : Regularized V) (a b : Nat) :
+    m.matrix true a b = m.entry a b := rfl
+
+theorem modified_matrix_true [Mul V] (hcomm : ∀ a b : V, a * b = b * a) (m : Modified V) (a b : Nat) :
+    m.matrix true a b = m.entry a b := by
+  simp only [Modified.matrix, Kernel.matrix, Modified.entry, ↓reduceIte]; exact hcomm _ _
+
+/-- `PartlyPrecomputedMatrix::row` (whole rows only) returns the base row, stored or not -/
+theorem partly_row_true (be : Nat → Nat → V) (n bytes sz k : Nat) :
+    (Partly.init be n bytes sz).row n k = (List.range n).map fun j => be k j := by
+  simp only [Partly.row, Partly.init]; exact ite_self _
+
+/-! ### the cache over a wrapper, end to end (instances of `cachedMatrix_refines_spec`) -/
+open SharkVerif.Cache (CMG) in
+open SharkVerif.C09.G in
+/-- `CachedMatrix<RegularizedKernelMatrix>`: all observations are those of
+`(a,b) ↦ K(π a, π b) + [a = b]·diag(π a)`; accounting holds in every reachable state -/
+theorem cached_regularized_refines [Add V] (k : Nat → Nat → V) (d : Nat → V) (junk : Nat → V) (n cap : Nat)
+    (hist : List G.GOp) (hv : G.ValidHist regularizedOps junk (CMG.init n (Regularized.init k d) cap) hist) :
+    ∃ g, G.run regularizedOps junk (CMG.init n (Regularized.init k d) cap) hist =
+        some (g, (G.specRun (fun a b => if a = b then k a b + d a else k a b) id hist).2) ∧
+      G.Accounting g n cap (fun a b => if a = b then k a b + d a else k a b)
+        (G.specRun (fun a b => if a = b then k a b + d a else k a b) id hist).1 :=
+  cachedMatrix_refines_spec regularized_lawful junk n cap (Regularized.init k d) hist hv
+
+open SharkVerif.Cache (CMG) in
+open SharkVerif.C09.G in
+/-- `CachedMatrix<ModifiedKernelMatrix>` -/
+theorem cached_modified_refines [Mul V] (hcomm : ∀ a b : V, a * b = b * a) (k : Nat → Nat → V)
+    (lab : Nat → Nat) (e ne : V) (junk : Nat → V) (n cap : Nat) (hist : List G.GOp)
+    (hv : G.ValidHist modifiedOps junk (CMG.init n (Modified.init k lab e ne) cap) hist) :
+    ∃ g, G.run modifiedOps junk (CMG.init n (Modified.init k lab e ne) cap) hist =
+        some (g, (G.specRun (fun a b => (if lab a = lab b then e else ne) * k a b) id hist).2) ∧
+      G.Accounting g n cap (fun a b => (if lab a = lab b then e else ne) * k a b)
+        (G.specRun (fun a b => (if lab a = lab b then e else ne) * k a b) id hist).1 :=
+  cachedMatrix_refines_spec (modified_lawful hcomm) junk n cap (Modified.init k lab e ne) hist hv
+
+open SharkVerif.Cache (CMG) in
+open SharkVerif.C09.G in
+/-- `CachedMatrix<GaussianKernelMatrix>` -/
+theorem cached_gaussian_refines [Add V] [Sub V] [Mul V] [OfNat V 2] (ip : Nat → Nat → V) (post : V → V)
+    (junk : Nat → V) (n cap : Nat) (hist : List G.GOp)
+    (hv : G.ValidHist gaussianOps junk (CMG.init n (Gaussian.init ip post) cap) hist) :
+    ∃ g, G.run gaussianOps junk (CMG.init n (Gaussian.init ip post) cap) hist =
+        some (g, (G.specRun (fun a b => post (ip a a - 2 * ip a b + ip b b)) id hist).2) ∧
+      G.Accounting g n cap (fun a b => post (ip a a - 2 * ip a b + ip b b))
+        (G.specRun (fun a b => post (ip a a - 2 * ip a b + ip b b)) id hist).1 :=
+  cachedMatrix_refines_spec gaussian_lawful junk n cap (Gaussian.init ip post) hist hv
+
+/-! ### non-vacuity -/
+open SharkVerif.Cache (CMG) in
+open SharkVerif.C09.G in
+/-- a concrete valid history over a cached regularised matrix (capacity 4 < two full rows): requests
+of length 0 on a cached line, `end = k`, `end = k+1`, `start = end`, shrink, clear, eviction -/
+def demoHist : List G.GOp :=
+  [.row 0 3, .row 0 0, .rows 1 1 1, .rows 2 1 2, .rows 2 1 3, .flip 2 0, .row 1 2, .entry 0 2, .maxidx 1,
+   .row 2 3, .clear, .rows 0 0 3]
+
+open SharkVerif.Cache (CMG) in
+open SharkVerif.C09.G in
+example : (G.run (regularizedOps (V := Int)) (fun _ => -1)
+      (CMG.init 3 (Regularized.init (fun a b => (a * 10 + b : Nat)) (fun a => (100 * (a + 1) : Nat))) 4) demoHist).isSome = true := by
+  decide
+
+/-- … and it meets every guard, so `cached_regularized_refines` applies to it -/
+example : G.ValidHist (regularizedOps (V := Int)) (fun _ => -1)
+    (SharkVerif.Cache.CMG.init 3 (Regularized.init (fun a b => (a * 10 + b : Nat)) (fun a => (100 * (a + 1) : Nat))) 4) demoHist :=
+  G.validHist_of_check _ _ _ _ (by decide)
+
+/-- the premises of `smo_three_rows_valid` are satisfiable: three rows of length 2 under capacity 6 -/
+example :
+    (match SharkVerif.Cache.CMG.row (kernelOps (V := Int)) (fun _ => -1) (SharkVerif.Cache.CMG.init 3 (Kernel.init fun a b => (a * 10 + b : Nat)) 6) 0 0 2 with
+     | some g1 =>
+       match SharkVerif.Cache.CMG.row kernelOps (fun _ => -1) g1 1 0 2 with
+       | some g2 =>
+         decide ((g1.cache.core.lines 0).length + 2 ≤ g1.cache.core.maxSize ∧
+           (g2.cache.core.lines 0).length + (g2.cache.core.lines 1).length + 2 ≤ g2.cache.core.maxSize ∧
+           g2.cache.bufferOf 0 = 1 ∧ g2.cache.bufferOf 1 = 2) &&
+         (SharkVerif.Cache.CMG.row kernelOps (fun _ => -1) g2 2 0 2).isSome
+       | none => false
+     | none => false) = true := by decide
+
+example : (flips Gaussian.flip (Gaussian.init (fun a b => ((a + 1) * (b + 1) : Int)) id) [(0, 2)]).entry 0 1 = 1 := by
+  decide
 
 end SharkVerif.C09.Wrappers
